@@ -198,7 +198,8 @@ class LinkContainer(Container):
 
         self._backend.delete(item.id)
 
-    def append(self, item):
+    def _accept(self, item):
+        # the checks of append(); returns the entity to be linked
         if util.is_uuid(item):
             item = self._inst_item(self._backend.get_by_id(item))
 
@@ -207,14 +208,19 @@ class LinkContainer(Container):
 
         if item not in self._itemstore:
             raise RuntimeError("This item cannot be appended here.")
+        return item
 
+    def append(self, item):
+        item = self._accept(item)
         self._backend.create_link(item, item.id)
 
     def extend(self, items):
         if not isinstance(items, Iterable):
             raise TypeError("{} object is not iterable".format(type(items)))
-        for item in items:
-            self.append(item)
+        # check every item before the first link is written
+        accepted = [self._accept(item) for item in items]
+        for item in accepted:
+            self._backend.create_link(item, item.id)
 
     def __getitem__(self, identifier):
         if isinstance(identifier, int):
